@@ -102,7 +102,11 @@ func c09RenewScenario(r *Run, ver int, confirm string) {
 		// the renewal's spend notification arms the conf watcher, then it confirms
 		regs := e.notifier.liveRegs(1, false)
 		if len(regs) > 0 {
-			rec, _ := e.db.Account(k.key.PubKey)
+			rec, rerr := e.db.Account(k.key.PubKey)
+			if rerr != nil || rec.LatestTx == nil {
+				bad(fmt.Sprintf("the renewed account cannot be read back with its transaction: %v", rerr))
+				return
+			}
 			rg := regs[len(regs)-1]
 			rg.fired = true
 			tx := rec.LatestTx.Copy()
@@ -137,9 +141,12 @@ func c09RenewScenario(r *Run, ver int, confirm string) {
 		}
 		settle()
 		if n := e.expiryHandled(1); n != 0 {
-			rec, _ := e.db.Account(k.key.PubKey)
+			state := "unreadable"
+			if rec, rerr := e.db.Account(k.key.PubKey); rerr == nil {
+				state = rec.State.String()
+			}
 			bad(fmt.Sprintf("account renewed from expiry %d to %d was handed to HandleAccountExpiry at height %d (< %d); state now %v",
-				e1, e2, h, e2, rec.State))
+				e1, e2, h, e2, state))
 			return
 		}
 	}
@@ -157,7 +164,11 @@ func c09RenewScenario(r *Run, ver int, confirm string) {
 			e2, n, e2+7))
 		return
 	}
-	rec, _ := e.db.Account(k.key.PubKey)
+	rec, rerr := e.db.Account(k.key.PubKey)
+	if rerr != nil {
+		bad("the stored record of the expired account cannot be read back: " + rerr.Error())
+		return
+	}
 	want := account.StateExpiredPendingUpdate
 	if confirm != "never" {
 		want = account.StateExpired
